@@ -111,8 +111,8 @@ impl ser::Serializer for Serializer {
     }
 
     #[inline]
-    fn serialize_char(self, _v: char) -> Result<Self::Ok, Self::Error> {
-        Err(SerializerError("char is not supported.".to_string()))
+    fn serialize_char(self, v: char) -> Result<Self::Ok, Self::Error> {
+        Ok(ConstValue::String(v.to_string()))
     }
 
     #[inline]
